@@ -25,6 +25,14 @@ def assert_address_in_memory(memory_width: int, address: int) -> None:
         raise FlipJumpAssemblerException(f"Not enough space with the {memory_width}-bits memory-width.")
 
 
+def assert_word_in_range(memory_width: int, value: int, description: str) -> None:
+    if value < 0 or value >= (1 << memory_width):
+        raise FlipJumpAssemblerException(
+            f"the {description} ({value}) doesn't fit in a {memory_width}-bits memory word: "
+            f"it must be in the range [0, {hex(1 << memory_width)})"
+        )
+
+
 def validate_addresses(memory_width: int, first_address: int, last_address: int) -> None:
     if first_address % memory_width != 0 or last_address % memory_width != 0:
         raise FlipJumpAssemblerException(
@@ -120,6 +128,8 @@ class BinaryData:
         self.wflips_so_far += 1
 
     def insert_fj_op(self, flip: int, jump: int) -> None:
+        assert_word_in_range(self.memory_width, flip, 'flip address')
+        assert_word_in_range(self.memory_width, jump, 'jump address')
         self.fj_words += (flip, jump)
         self.current_address += 2 * self.memory_width
 
@@ -134,6 +144,9 @@ class BinaryData:
             # this is the order of flip_addresses (tested with many other orders) that produces the best
             #  found-statistic for searching flip_bit[:i] with different i's in return_dict.
             flip_addresses = [word_address + i for i in range(self.memory_width) if flip_value & (1 << i)][::-1]
+            assert_word_in_range(self.memory_width, flip_addresses[-1], 'wflip first flipped-bit address')
+            assert_word_in_range(self.memory_width, flip_addresses[0], 'wflip last flipped-bit address')
+            assert_word_in_range(self.memory_width, return_address, 'wflip return address')
 
             # insert the first op
             self.insert_fj_op(flip_addresses.pop(), 0)
